@@ -419,11 +419,16 @@ class Gen:
         if k == "aug":
             w = r.choice(["loc", "attr", "item"])
             op = r.choice(["+", "-", "*"])
+            rhs = self.expr(ed - 1, bound)
+            while rhs[0] == "fstr":
+                # 'obj.x += f"..."' is compiled to __Pyx_PyUnicode_ConcatInPlace, which assumes a str left operand
+                # and aborts / reads garbage for other objects: a type-confusion bug outside this property
+                rhs = self.expr(ed - 1, bound)
             if w == "loc" and bound:
-                return ("augloc", r.choice(sorted(bound)), op, self.expr(ed - 1, bound)), bound
+                return ("augloc", r.choice(sorted(bound)), op, rhs), bound
             if w == "attr":
-                return ("augattr", self.expr(ed - 1, bound), r.choice(ATTRS), op, self.expr(ed - 1, bound)), bound
-            return ("augitem", self.expr(ed - 1, bound), self.expr(ed - 1, bound), op, self.expr(ed - 1, bound)), bound
+                return ("augattr", self.expr(ed - 1, bound), r.choice(ATTRS), op, rhs), bound
+            return ("augitem", self.expr(ed - 1, bound), self.expr(ed - 1, bound), op, rhs), bound
         if k == "unpack":
             n = r.randrange(1, 4)
             xs = [self.newloc() for _ in range(n)]
@@ -1006,7 +1011,7 @@ def run_chunk(ctx, name, chunk, maxk, with_ledger=False):
                              "%s build: argument refcount deltas %r" % (tag, row["rc"]), "all 0")
                 if row.get("nanny"):
                     only_leak = "Too many" not in row["nanny"] and "NULL" not in row["nanny"]
-                    over = "Too many decrefs" in row["nanny"] and "leaked" not in row["nanny"] and k > 0
+                    over = "Too many decrefs" in row["nanny"] and "leaked" not in row["nanny"]
                     kl = leak_class if only_leak else klass
                     if over and chain_with_fallible_tail(body):
                         kl = "cascaded_cmp_dangling_temp"
@@ -1016,14 +1021,21 @@ def run_chunk(ctx, name, chunk, maxk, with_ledger=False):
             # --- property oracle: CPython on the same source and fault
             if order_same and k < len(py):
                 p = py[k]
-                if (p["out"], p["log"]) != (c["out"], c["log"]):
-                    if p["out"].startswith("exc ") and c["out"].startswith("exc "):
-                        # both runs end in a NON-injected exception (e.g. 'with []': TypeError vs AttributeError,
-                        # or {}.foo(args) looking the method up after the arguments): general compatibility /
-                        # evaluation order matters (C01, C20), not this property
-                        ctx.strata["noninjected_exception_type_differs"] = ctx.strata.get("noninjected_exception_type_differs", 0) + 1
-                    else:
-                        ctx.fail(klass + "_outcome", inp, c["out"] + " | " + c["log"][-120:], p["out"] + " | " + p["log"][-120:])
+                pl, cl = p["log"].split(), c["log"].split()
+                bump = lambda key: ctx.strata.__setitem__(key, ctx.strata.get(key, 0) + 1)
+                if pl[:k] != cl[:k]:
+                    # the k-th call is a different operation in the two runs (evaluation order differs on a path
+                    # only reached after an earlier... or at this fault): not comparable, an order matter (C20)
+                    bump("fault_lands_on_different_operation")
+                elif p["out"].startswith("exc ") and c["out"].startswith("exc "):
+                    # both runs end in a NON-injected exception (e.g. 'with []': TypeError vs AttributeError,
+                    # or {}.foo(args) looking the method up after the arguments): C01 / C20 matters
+                    if (p["out"], pl) != (c["out"], cl):
+                        bump("noninjected_exception_type_differs")
+                elif p["out"] != c["out"] or sorted(pl) != sorted(cl):
+                    ctx.fail(klass + "_outcome", inp, c["out"] + " | " + c["log"][-160:], p["out"] + " | " + p["log"][-160:])
+                elif pl != cl:
+                    bump("call_order_differs_after_fault")        # e.g. o.m(args): method looked up after the args
                 if p["live"] != 0 or any(p["rc"]):
                     ctx.note("harness: CPython itself left live=%s rc=%s on %s k=%d" % (p["live"], p["rc"], fn, k))
             # --- model tie (core fragment): refnanny event order vs extracted model
